@@ -284,7 +284,7 @@ func sink(point string, args ...any) {
 	}
 }
 
-var readOps = map[string]bool{"cFlag": true, "cCtrl": true, "cW": true, "cT": true, "cM": true, "cCas": true}
+var readOps = map[string]bool{"cFast": true, "cFlag": true, "cCtrl": true, "cW": true, "cT": true, "cM": true, "cCas": true}
 
 // ---- scenario execution ---------------------------------------------------------------------------
 
